@@ -99,27 +99,31 @@ from vgi_rpc.utils import IpcValidation, ValidatedReader, new_ipc_stream
 # ---------------------------------------------------------------------------
 
 
-_ACCESS_LOG_ERROR_MESSAGE_LIMIT = 500
-"""Cap for ``error_message`` fields surfaced via the access log.
+_ACCESS_LOG_ERROR_MESSAGE_LIMIT: int | None = None
+"""Cap for ``error_message`` fields surfaced via the access log; ``None`` = no cap.
 
-Long exception messages (typically with embedded tracebacks or repeated
-context) bloat each JSONL record without adding signal — the full traceback
-is logged separately by ``_log_method_error``.  The cap matches the
-historical inline truncation used at every dispatch site.
+``docs/access-log-spec.md`` is explicit that ``error_message`` has no length
+cap and MUST NOT be truncated ("the full server-side message is reported"),
+and the pipe/unix shells have always logged ``str(exc)`` in full.  The HTTP
+shells used to cut the message at 500 characters, so the same failure
+produced different records depending on the transport.  Per-record size is
+bounded by ``VgiAccessLogFormatter`` instead, which sheds every other
+optional field before it would touch ``error_message``.
 """
 
 
-def _truncate_error_message(exc: BaseException | None, limit: int = _ACCESS_LOG_ERROR_MESSAGE_LIMIT) -> str:
+def _truncate_error_message(exc: BaseException | None, limit: int | None = _ACCESS_LOG_ERROR_MESSAGE_LIMIT) -> str:
     """Render an exception's message for the access-log ``error_message`` field.
 
     Returns ``""`` for ``None`` (the no-error case).  Otherwise returns
-    ``str(exc)`` truncated to ``limit`` characters.  Centralises the
-    historically duplicated ``str(exc)[:500]`` pattern across the unary
-    and stream dispatch shells so the truncation policy is one knob.
+    ``str(exc)`` -- in full unless an explicit ``limit`` is passed.
+    Centralises the rendering across the unary and stream dispatch shells
+    so the policy is one knob.
     """
     if exc is None:
         return ""
-    return str(exc)[:limit]
+    text = str(exc)
+    return text if limit is None else text[:limit]
 
 
 def _log_method_error(protocol_name: str, method_name: str, server_id: str, exc: BaseException) -> str:
